@@ -39,6 +39,8 @@ def scenarios():
         "down-20%": (step("0.8"), "eq", None, 1),
         # the pool's oSQTH/ETH mark jumps x2.5 with ETH +40%: liquidation pays at a mark far above the index, vaults end up under water
         "mark-x2.5": (step("1.4"), "eq", [1 if i < 8 else 2.5 for i in range(N)], 1),
+        # oSQTH mark falls to 0.4 x while ETH rises 40%: an in-range LP position ends up all in oSQTH, LP-only vaults pay the redemption bounty from nothing
+        "mark-x0.4": (step("1.4"), "eq", [1 if i < 8 else 0.4 for i in range(N)], 1),
         "mark-x1.6-ramp": ([Decimal(2000) * Decimal("1.06") ** max(0, i - 6) for i in range(N)], "eq", [1.0 if i < 8 else 1.6 for i in range(N)], 1),
         # five-minute bars (data resampled by the markets' own _resample): the seven-minute window holds two rows, not seven
         "5min-ramp+3%": ([Decimal(2000) * Decimal("1.03") ** max(0, i - 3) for i in range(N)], "eq", None, 5),
@@ -47,6 +49,9 @@ def scenarios():
         # the index, so the dust rule and the cap at the vault's collateral both come into play on small vaults
         "premium1.5-ramp+4%": ([Decimal(2000) * Decimal("1.04") ** max(0, i - 6) for i in range(N)], "eq", None, 1, Fraction(2, 3)),
         "premium2.2-step+30%": (step("1.3"), "eq", None, 1, Fraction(5, 11)),
+        # ETH flat, oSQTH at a 50% premium whose mark then falls 20% through the LP range: the position ends up all in oSQTH bought above the index, so
+        # LP collateral loses value without any oracle move; an LP-only vault (no ETH) has to pay the redemption bounty
+        "premium1.5-mark-x0.8": (flat, "eq", [1 if i < 8 else 0.8 for i in range(N)], 1, Fraction(2, 3)),
     }
 
 
@@ -154,12 +159,12 @@ def alphabet(world):
         if ctx.bar + 1 < len(ctx.index):
             out.append(Op("advance", lambda c: advance(c, world), False, "advance"))
         if not vaults or (len(vaults) < 2):
-            for e in ("1", "0.49", "0.51", "3"):
+            for e in ("1", "0.49", "0.51", "3", "0"):
                 for mc, f in (("half", Fraction(1, 2)), ("p90", Fraction(9, 10)), ("near", 1 - Fraction(1, 10**4)), ("beyond", 1 + Fraction(1, 10**4))):
                     for lp in ((False, True) if free_lp else (False,)):
                         if e in ("0.49", "0.51", "3") and mc not in ("near", "p90"):
                             continue
-                        if lp and e != "1":
+                        if (lp and e not in ("1", "0")) or (e == "0" and (not lp or mc not in ("near", "p90"))):
                             continue
 
                         def odm(c, e=e, f=f, lp=lp):
@@ -219,6 +224,11 @@ def alphabet(world):
                 note("add_lp")
                 return um.add_liquidity_by_tick(lo, hi, Decimal(3), Decimal(25))
             out.append(Op("squni.add[in]", addlp, False, "add_lp"))
+
+            def addlp_big(c):
+                note("add_lp")
+                return um.add_liquidity_by_tick(lo, hi, Decimal(20), Decimal(25))
+            out.append(Op("squni.add[in,big]", addlp_big, True, "add_lp"))
         return out
     return ops
 
@@ -382,7 +392,7 @@ class Oracle:
             if p["nft"]:
                 burn = min(p["o_lp"], S)
                 exp_wallet_osq += p["o_lp"] - burn
-                bounty = (p["o_lp"] * tw + p["w_lp"]) / 50
+                bounty = min((p["o_lp"] * tw + p["w_lp"]) / 50, C + p["w_lp"])  # paid out of the vault's ETH: never more than it holds
                 S = S - burn
                 C = C + p["w_lp"] - bounty
                 part.count("lp_redeemed")
@@ -426,7 +436,7 @@ class Oracle:
 
 
 # seeded non-initial states (label prefixes, replayed on the real objects): an LP position, vaults with LP collateral near / off the frontier
-ROOTS = ((), ("squni.add[in]",), ("squni.add[in]", "odm[new,1,p90,lp]"), ("squni.add[in]", "odm[new,1,near,lp]"), ("odm[new,1,near,nolp]",),
+ROOTS = ((), ("squni.add[in]",), ("squni.add[in]", "odm[new,1,p90,lp]"), ("squni.add[in]", "odm[new,1,near,lp]"), ("squni.add[in,big]", "odm[new,0,p90,lp]"), ("odm[new,1,near,nolp]",),
          ("odm[new,3,p90,nolp]", "odm[new,0.51,near,nolp]"))
 
 
@@ -447,19 +457,24 @@ def run_partition(args):
 def main(run: Run):
     depth = run.pick(3, 4)
     max_dev = run.pick(2, 3)
-    scns = list(scenarios()) if run.thorough else ["flat", "step+2%", "step+30%", "step+150%", "ne-step+30%", "mark-x2.5", "5min-ramp+3%",
+    scns = list(scenarios()) if run.thorough else ["flat", "step+2%", "step+30%", "step+150%", "ne-step+30%", "mark-x2.5", "mark-x0.4", "premium1.5-mark-x0.8", "5min-ramp+3%",
                                                     "premium1.5-ramp+4%"]
     jobs = []
+    skipped, accepted_roots = [], set()
     for scn in scns:
-        for start in ((START, 2) if scn in ("step+30%", "flat") else ((START, 10) if scn == "mark-x2.5" else (START,))):
+        for start in ((START, 2) if scn in ("step+30%", "flat") else ((START, 10) if scn in ("mark-x2.5", "mark-x0.4") else (START,))):
             world = make_world(scn, start)
             for root in ROOTS:
                 ctx, outs = kit.replay_history(world.build, alphabet(world), root)
                 if not all(o.ok for o in outs):
-                    raise RuntimeError(f"seed root {root} rejected in scenario {scn}")
+                    skipped.append((scn, start, root))  # e.g. an LP-only vault opened when the position is worth less than the 0.5 ETH minimum
+                    continue
+                accepted_roots.add(root)
                 labels = [o.label for o in alphabet(world)(ctx)]
                 for grp in (labels[0::3], labels[1::3], labels[2::3]):
                     jobs.append((run.seed, scn, depth, max_dev, frozenset(grp), start, root))
+    if accepted_roots != set(ROOTS) or len(skipped) > 2:
+        raise RuntimeError(f"seeded roots rejected: {skipped}")
     jobs = run.rotate(jobs)
     tot = {"states": 0, "transitions": 0, "complete": 0, "distinct_outcomes": 0}
     for r in pmap(run_partition, jobs):
